@@ -448,6 +448,10 @@ REMARK = {
  "C12-2": "neutralised by fix 0b54bc0 (F26): registrations of one path are serialised, so the weakened second duplicate check is never exercised concurrently; the demonstration no longer fails",
  "C12-3": "caught by the C12 registration storm before fix 0b54bc0 (F26) (Store.DBs listed the path up to 16 times); that fix serialises registrations of one path, after which the change is harmless and its demonstration no longer fails",
  "C12-4": "the first test of the demonstration asserted that a sync on a closed database returns nil, which fix 94c91f9 (F25) deliberately changed; the second test is used",
+ "C09-6": "the sub-agent's demonstration passes with the patch on the current HEAD (the history it uses is sent to a full snapshot by DB.verify before the reader is resumed); the change itself is caught by C09 (a reader resumed with the salts of another generation returns frames) and by C04",
+ "C02-6": "same idea as C01-1, written independently for C02; the property it breaks is C04's",
+ "C02-7": "patch rebased on fix c9f4234 (patch.orig.diff is the sub-agent's original)",
+ "C04-6": "patch rebased on fix 99e28af (patch.orig.diff is the sub-agent's original)",
  "C18-5": "patch rebased on the hydration fixes (patch.orig.diff is the sub-agent's original)",
 }
 
